@@ -69,7 +69,9 @@ type aDSet struct {
 }
 
 type depStep struct {
-	Op     string  `json:"op"` // edit | pause | limit | dep | set | stat | member
+	Op     string  `json:"op"` // edit | pause | limit | dep | set | stat | member | race
+	With   int     `json:"with,omitempty"` // race: the ObjectSet whose controller pass runs inside the pass of Name
+	At     int     `json:"at,omitempty"`   // race: ... right before the At-th (0-based) non-dry-run write request of that pass
 	Tmpl   int     `json:"tmpl,omitempty"`
 	V      bool    `json:"v,omitempty"`
 	Limit  *int32  `json:"limit,omitempty"`
@@ -791,6 +793,44 @@ func init() {
 					so.Res = "requeue"
 				default:
 					so.Res = "done"
+				}
+				so.Requests = requestSummary(s.Log)
+			case "race":
+				// a pass of the ObjectSet controller for Name; between its reads and its At-th write the controller of With runs a full pass
+				mk := func() *objectsets.GenericObjectSetController {
+					cache := &fakeCache{s: s}
+					if c.cluster {
+						return objectsets.NewClusterObjectSetController(s, logr.Discard(), scheme, cache, s, nil, s.RESTMapper())
+					}
+					return objectsets.NewObjectSetController(s, logr.Discard(), scheme, cache, s, nil, s.RESTMapper())
+				}
+				outer, inner := mk(), mk()
+				ki := c.setKey(st.With)
+				fired := false
+				s.WriteHook = func(n int) {
+					if fired || n != st.At {
+						return
+					}
+					fired = true
+					hook := s.WriteHook
+					s.WriteHook = nil
+					_, _ = inner.Reconcile(ctx, ctrl.Request{NamespacedName: types.NamespacedName{Namespace: ki.Namespace, Name: ki.Name}})
+					s.WriteHook = hook
+				}
+				k := c.setKey(st.Name)
+				res, err := outer.Reconcile(ctx, ctrl.Request{NamespacedName: types.NamespacedName{Namespace: k.Namespace, Name: k.Name}})
+				s.WriteHook = nil
+				switch {
+				case err != nil:
+					so.Res = "error"
+					so.ErrMsg = err.Error()
+				case res.RequeueAfter > 0 || res.Requeue:
+					so.Res = "requeue"
+				default:
+					so.Res = "done"
+				}
+				if !fired {
+					so.ErrMsg += " (race hook not reached)"
 				}
 				so.Requests = requestSummary(s.Log)
 			case "stat":
